@@ -28,6 +28,7 @@ func runC02(r *engine.Run) {
 	r.Rule("AGREE-fields", "see C14: writer and reader of each node encoding agree (the root commits to what can be decoded back)")
 	r.Rule("LOCK-mpt", "see C16: root, the stores' maps and level links and the collector's maps are accessed only with their owner's mutex held in the required mode (a writer under the read lock, or on a root read outside the lock, loses another writer's update)")
 	r.Rule("ORDER-critical", "see C16: Insert, Delete, MergeChanges and MergeDB are one critical section each, from the first read of the root to its last update")
+	r.Rule("FRESH-bytes", "see C03: the byte slices handed out by the node and value accessors (MarshalMsg, Encode, GetHashBytes, GetValueBytes) are new buffers on every return - a caller that writes into what a lookup or an encoder handed out would otherwise change a stored value behind its hash, and the root would no longer be a function of the content")
 	r.NotDec = append(r.NotDec, "equality with an independent implementation for every content", "full history independence (canonical restructuring is value-level)", "collision resistance of the hash")
 	agreeHash(r, "AGREE-hash")
 	orderStamp(r, "ORDER-stamp")
@@ -40,6 +41,7 @@ func runC02(r *engine.Run) {
 	domSize(r)
 	agreeFields(r)
 	mptLockDiscipline(r)
+	freshBytes(r, "FRESH-bytes")
 }
 
 var trieNodeTypes = []string{"LeafNode", "FullNode", "ExtensionNode"}
@@ -156,6 +158,28 @@ func orderStamp(r *engine.Run, rule string) {
 	if store == nil {
 		r.Fail(rule, fn(f), r.P.Pos(f.Pos()), "insertNode lacks the stamp/hash/put sequence (no store write in insertNode or in the method it hands over to): a node is stored under a hash computed before its origin was set")
 		return
+	}
+	// the non-stamping store function is for insertNode and for the merge of a
+	// child's change set only: a walk that files a node it built through it leaves
+	// the node with whatever origin it had (a new extension: 0), so the same
+	// content gets another hash and root than the trie insert builds
+	if store != f {
+		cg := r.P.RepoCG()
+		for _, e := range cg.In[store] {
+			caller := engine.TopFunc(e.Caller)
+			ok := caller == f || caller.Name() == "mergeChanges"
+			if !ok {
+				// a helper that only the merge calls (the replay loop extracted)
+				ok = len(cg.In[caller]) > 0
+				for _, e2 := range cg.In[caller] {
+					if n := engine.TopFunc(e2.Caller).Name(); n != "mergeChanges" && n != "MergeChanges" && n != "MergeMPTChanges" {
+						ok = false
+					}
+				}
+			}
+			r.Check(ok, rule, fn(store)+"|called from "+fn(caller), r.P.Pos(e.Site.Pos()), "the non-stamping store function is used by insertNode and the merge only",
+				fn(caller)+" files a node through "+fn(store)+", which does not stamp the trie's version: the node keeps whatever origin it had, the origin is part of the hash, so the same content reached by another history has another root")
+		}
 	}
 	newP := f.Params[2]
 	var stamp, hash, put, hand *ssa.Call
